@@ -28,6 +28,7 @@ import (
 	"github.com/olive-io/bpmn/v2/pkg/event"
 	"github.com/olive-io/bpmn/v2/pkg/id"
 	"github.com/olive-io/bpmn/v2/pkg/tracing"
+	"github.com/olive-io/bpmn/v2/pkg/verifhook"
 )
 
 // ProcessLandMarkTrace denotes instantiation of a given sub process
@@ -569,6 +570,7 @@ func (sp *subProcess) run(ctx context.Context, out tracing.ITracer) {
 					// parent (in the worst case an inner task request is lost)
 					traces := sp.subTracer.Subscribe()
 					defer sp.subTracer.Unsubscribe(traces)
+					verifhook.Point("subprocess.activate")
 
 					if err := sp.startAll(ctx); err != nil {
 						subProcessId := ""
